@@ -32,21 +32,23 @@ Values(t) ==
     [] OTHER -> {x \in Around(Zero, 2) \cup Around(BMin(t.w, t.sg), 1) \cup Around(Sub(P2(IF t.sg = 1 THEN t.w - 1 ELSE t.w), One), 1)
                        \cup {FromInt(999), FromInt(-1001), FromInt(86400000), FromInt(-86400001)} : BIn(t.w, t.sg, x)}
 
-VARIABLES a, b, v
-vars == <<a, b, v>>
-Init == a \in Types /\ b \in Types /\ a # b /\ v \in Values(a)
-Stutter == UNCHANGED vars
-Spec == Init /\ [][Stutter]_vars
+(* ph = 0: the source type only (initial states); the Next action chooses the   *)
+(* target type and the value, so that the laws are evaluated by the workers     *)
+VARIABLES ph, a, b, v
+vars == <<ph, a, b, v>>
+Init == ph = 0 /\ a \in Types /\ b = a /\ v = Zero
+Next == ph = 0 /\ ph' = 1 /\ b' \in Types \ {a} /\ v' \in Values(a) /\ UNCHANGED a
+Spec == Init /\ [][Next]_vars
 
 InTarget(t, x) == IF t.f = "dec" THEN FitsPrecision(x, t.p) ELSE IF t.f = "bool" THEN x \in {Zero, One} ELSE BIn(t.w, t.sg, x)
 
-Defined == Exact(a, b) => CastVal(a, b, v).ok \in BOOLEAN
-Sound == (Exact(a, b) /\ CastVal(a, b, v).ok) => IsBig(CastVal(a, b, v).v) /\ InTarget(b, CastVal(a, b, v).v)
+Defined == (ph = 1 /\ Exact(a, b)) => CastVal(a, b, v).ok \in BOOLEAN
+Sound == (ph = 1 /\ Exact(a, b) /\ CastVal(a, b, v).ok) => IsBig(CastVal(a, b, v).v) /\ InTarget(b, CastVal(a, b, v).v)
 Inverse ==
-  (Exact(a, b) /\ Exact(b, a) /\ Lossless(a, b)) =>
+  (ph = 1 /\ Exact(a, b) /\ Exact(b, a) /\ Lossless(a, b)) =>
      LET r == CastVal(a, b, v) IN r.ok /\ CastVal(b, a, r.v) = Val(v)
 Rounding ==
-  (a.f = "dec" /\ b.f = "dec" /\ b.s < a.s /\ CastVal(a, b, v).ok) =>
+  (ph = 1 /\ a.f = "dec" /\ b.f = "dec" /\ b.s < a.s /\ CastVal(a, b, v).ok) =>
      LET q == CastVal(a, b, v).v
          k == a.s - b.s
          e == Sub(v, MulPow10(q, k))
